@@ -17,7 +17,7 @@ func init() { checks["C07"] = c07 }
 func c07(args []string) {
 	c := chk.New("C07", "exploration", args)
 	c.Build(false)
-	c.Rule("(a) mixed-cores contention workloads (max in {2,3,4,6}, multisets of task classes with cores in 1..max; every fourth workload has an additional process with CoresPerTask = 0) with yields of up to 3 ms at slots.before_lock / slots.deposit / slots.release so that token-by-token acquisitions of different tasks interleave whenever the lock does not prevent it: must terminate (structural hang classifier, never elapsed time); (a1) one task waiting more than 10 s for the only slot; (a3) a streaming-only producer in front of a task that needs every slot, and a Concatenator between tasks with a single slot: must terminate; (a2) the same with outputs of waiting tasks appearing on disk while they wait (written by sibling tasks): must terminate with every slot given back (shadow counter 0) and every task either run or skipped; (b) rendezvous groups: k tasks with k*cores <= max and nothing else ready must all be inside their command at the same time (each announces itself and waits for k announcements; completion is the witness; on expiry the hook event log decides: a waiter blocked in the slot acquisition although free >= needed is a violation, anything else inconclusive); (b3) two workflows in one program: a task of X waiting for X's only slot must not keep Y's tasks from Y's free slots (one rendezvous group across both); (d) workloads driven through the exported task API (NewTask, Execute, Done) with a core count per task that differs from the process's CoresPerTask, all tasks started at once and a last task that needs every slot: must terminate with every output finalized; (c) CoresPerTask > max must be refused by the library (exit != 0 with its own message, no command of that process), a Go-runtime deadlock report is not a refusal. distinct_nontrivial = distinct (max, cores multiset, interleaving signature) of contention runs in which >= 2 tasks overlapped their acquisitions' waiting, plus completed rendezvous groups and refusals")
+	c.Rule("(a) mixed-cores contention workloads (max in {2,3,4,6}, multisets of task classes with cores in 1..max; every fourth workload has an additional process with CoresPerTask = 0) with yields of up to 3 ms at slots.before_lock / slots.deposit / slots.release so that token-by-token acquisitions of different tasks interleave whenever the lock does not prevent it: must terminate (structural hang classifier, never elapsed time); (a1) one task waiting more than 10 s for the only slot; (a3) a streaming-only producer in front of a task that needs every slot, a Concatenator between tasks with a single slot, a FileSplitter in front of tasks that need every slot: must terminate; (a2) the same with outputs of waiting tasks appearing on disk while they wait (written by sibling tasks): must terminate with every slot given back (shadow counter 0) and every task either run or skipped; (b) rendezvous groups: k tasks with k*cores <= max and nothing else ready must all be inside their command at the same time (each announces itself and waits for k announcements; completion is the witness; on expiry the hook event log decides: a waiter blocked in the slot acquisition although free >= needed is a violation, anything else inconclusive); (b3) two workflows in one program: a task of X waiting for X's only slot must not keep Y's tasks from Y's free slots (one rendezvous group across both); (d) workloads driven through the exported task API (NewTask, Execute, Done) with a core count per task that differs from the process's CoresPerTask, all tasks started at once and a last task that needs every slot: must terminate with every output finalized; (c) CoresPerTask > max must be refused by the library (exit != 0 with its own message, no command of that process), a Go-runtime deadlock report is not a refusal. distinct_nontrivial = distinct (max, cores multiset, interleaving signature) of contention runs in which >= 2 tasks overlapped their acquisitions' waiting, plus completed rendezvous groups and refusals")
 	c.Assume("head-of-line blocking behind a waiting multi-core task is legal: rendezvous groups are homogeneous and run with nothing else ready", "yields only make legal interleavings frequent (Go is preemptive)")
 	rng := c.Rand("c07")
 	type job struct {
@@ -125,8 +125,15 @@ func c07(args []string) {
 			&spec.Proc{Name: "CC", Kind: spec.KConcat, OutPath: "gathered.txt"},
 			&spec.Proc{Name: "Q", Kind: spec.KCmd, Cores: 1, Cmd: spec.BuildCmd("Q", in, o1, nil, nil, nil)})
 		s2.Conns = append(s2.Conns, &spec.Conn{From: "src.out", To: "W.in"}, &spec.Conn{From: "W.out", To: "CC.in"}, &spec.Conn{From: "CC.out", To: "Q.in"})
+		// a FileSplitter in front of tasks that need every slot (components take no part in the slot accounting)
+		s3 := &spec.Spec{Name: "splitthenbig", MaxTasks: 2, Sources: map[string]string{"five.txt": "1\n2\n3\n4\n5\n", "three.txt": "a\nb\nc\n"}}
+		s3.Procs = append(s3.Procs, &spec.Proc{Name: "src", Kind: spec.KFileSource, Files: []string{"five.txt", "three.txt"}},
+			&spec.Proc{Name: "SP", Kind: spec.KSplitter, Lines: 2},
+			&spec.Proc{Name: "BIG", Kind: spec.KCmd, Cores: 2, Cmd: spec.BuildCmd("BIG", in, o1, nil, nil, nil)})
+		s3.Conns = append(s3.Conns, &spec.Conn{From: "src.out", To: "SP.file"}, &spec.Conn{From: "SP.split_file", To: "BIG.in"})
 		for r := 0; r < c.Pick(2, 6); r++ {
-			jobs = append(jobs, &job{s: s1, cfg: Cfg{Buf: 128, Procs: []int{2, 4}[r%2]}, kind: "terminate"}, &job{s: s2, cfg: Cfg{Buf: []int{1, 128}[r%2], Procs: 2}, kind: "terminate"})
+			jobs = append(jobs, &job{s: s1, cfg: Cfg{Buf: 128, Procs: []int{2, 4}[r%2]}, kind: "terminate"}, &job{s: s2, cfg: Cfg{Buf: []int{1, 128}[r%2], Procs: 2}, kind: "terminate"},
+				&job{s: s3, cfg: Cfg{Buf: []int{128, 1}[r%2], Procs: 2}, kind: "terminate"})
 		}
 	}
 	// (a2) outputs of waiting tasks appear on disk while they wait for their slots (here: written as an
